@@ -5,7 +5,9 @@ import DuneVerif.Model.C08
 Exact ops (`ev2x`, `ev3x`) run the model over `Rat`; values travel as integers / dyadics `<m>p<e>` (= m·2^e, m odd).
 Hand-over ops (`hand`, `handns`, `handnsf`) run the index model of the LAPACK hand-over against the recording fake
 of the harness.  Floating-point ops (`sym`, `nsd`, `nsf`) are decided by the harness oracle; the model only states the
-shape of the answer. -/
+shape of the answer — except `sym d n cfq …` (double, closed form, n ≤ 3): there the *same generic model* is run over
+`Float` (IEEE double, operation order of the source) and its eigenvalues and eigenvectors, quantised to 2^-24 relative
+to the scale of the matrix and sign-normalised, must coincide with those of the C++ code. -/
 open DV DV.C08
 
 namespace C08Drv
@@ -90,14 +92,86 @@ def ev3x (t : String) (v : List Int) (e : Int) : String :=
     let r (x : Int) : Rat := (x : Rat) * s
     let A : M3 Rat := ⟨r a00, r a01, r a02, r a01, r a11, r a12, r a02, r a12, r a22⟩
     let dummy : Rat → Rat := fun _ => 0
+    if !diagBranchVec eps (sdiv3 A (maxAbsElement A)) then "trig" else
     match eigenValuesVectors3d dummy dummy dummy 0 eps A with
-    | (_, none) => "trig"
-    | ((l0, l1, l2), some (v0, v1, v2)) =>
+    | ((l0, l1, l2), (v0, v1, v2)) =>
       let (w0, w1, w2) := eigenValues3d dummy dummy dummy 0 eps A
       match dyList? [w0, w1, w2], dyList? [l0, l1, l2] with
       | some ws, some ls =>
         "vals=" ++ ws ++ " vvals=" ++ ls ++ " vecs=[" ++ showV3 v0 ++ "," ++ showV3 v1 ++ "," ++ showV3 v2 ++ "]"
       | _, _ => "bad-op"
+  | _, _ => "bad-op"
+
+/-! ### the model over IEEE double -/
+
+instance : NatCast Float := ⟨Float.ofNat⟩
+
+def hexDigit? (c : Char) : Option Nat :=
+  if c.isDigit then some (c.toNat - '0'.toNat)
+  else if 'a' ≤ c && c ≤ 'f' then some (c.toNat - 'a'.toNat + 10)
+  else none
+
+/-- exact value of a C99 hexadecimal floating literal (as printed by `%a`) as a double -/
+def parseHexFloat? (s : String) : Option Float :=
+  let cs := s.toList
+  let (neg, cs) := match cs with | '-' :: r => (true, r) | r => (false, r)
+  match cs with
+  | '0' :: 'x' :: rest =>
+    let mant := rest.takeWhile (· != 'p')
+    let ex := (rest.dropWhile (· != 'p')).drop 1
+    let ip := mant.takeWhile (· != '.')
+    let fp := (mant.dropWhile (· != '.')).drop 1
+    match (ip ++ fp).mapM hexDigit?, (String.ofList ex).toInt? with
+    | some ds, some e =>
+      if ds.isEmpty || ds.length > 14 then none else
+      let m := ds.foldl (fun acc d => acc * 16 + d) 0
+      let v := Float.scaleB (Float.ofNat m) (e - 4 * (fp.length : Int))
+      some (if neg then -v else v)
+    | _, _ => none
+  | _ => none
+
+/-- `floor(ldexp(x, 24 - k) + 0.5)` as an integer string -/
+def quant (k : Int) (x : Float) : Int :=
+  (Float.floor (Float.scaleB x (24 - k) + 0.5)).toInt64.toInt
+
+def showQ (x : Float) (q : Int) : String := if x.isNaN then "nan" else if x.isInf then "inf" else toString q
+
+def qList (k : Int) (l : List Float) : String :=
+  "[" ++ ",".intercalate (l.map fun x => showQ x (quant k x)) ++ "]"
+
+/-- quantised vector, sign-normalised (first non-zero quantised component positive) -/
+def qVec (v : List Float) : String :=
+  let qs := v.map (quant 0)
+  let flip : Int := match qs.find? (· != 0) with
+    | some x => if x < 0 then -1 else 1
+    | none => 1
+  "[" ++ ",".intercalate ((v.zip qs).map fun (x, q) => showQ x (q * flip)) ++ "]"
+
+def fSqrt : Float → Float := Float.sqrt
+def fEps : Float := Float.scaleB 1.0 (-52)
+def fPi : Float := Float.acos (-1.0)
+
+def symq (n : Nat) (k : Int) (xs : List Float) : String :=
+  let sc (x : Float) : Float := Float.scaleB x k
+  let shape := "shape n=" ++ toString n ++ " vals=" ++ toString n ++ " vecs=" ++ toString n ++ "x" ++ toString n
+  match n, xs with
+  | 1, [a] =>
+    let a := sc a
+    let (l, v) := eigenValuesVectors1d a
+    shape ++ " qvals=" ++ qList k [eigenValues1d a] ++ " qvvals=" ++ qList k [l] ++ " qvecs=[" ++ qVec [v] ++ "]"
+  | 2, [a, b, d] =>
+    let A : M2 Float := ⟨sc a, sc b, sc b, sc d⟩
+    match eigenValues2x2 fSqrt A, eigenValuesVectors2x2 fSqrt fEps A with
+    | .ok (w0, w1), .ok ((l0, l1), (v0, v1)) =>
+      shape ++ " qvals=" ++ qList k [w0, w1] ++ " qvvals=" ++ qList k [l0, l1] ++
+        " qvecs=[" ++ qVec [v0.x, v0.y] ++ "," ++ qVec [v1.x, v1.y] ++ "]"
+    | _, _ => "ERR:Math"
+  | 3, [a00, a01, a02, a11, a12, a22] =>
+    let A : M3 Float := ⟨sc a00, sc a01, sc a02, sc a01, sc a11, sc a12, sc a02, sc a12, sc a22⟩
+    let (w0, w1, w2) := eigenValues3d fSqrt Float.acos Float.cos fPi fEps A
+    let ((l0, l1, l2), (v0, v1, v2)) := eigenValuesVectors3d fSqrt Float.acos Float.cos fPi fEps A
+    shape ++ " qvals=" ++ qList k [w0, w1, w2] ++ " qvvals=" ++ qList k [l0, l1, l2] ++
+      " qvecs=[" ++ qVec [v0.x, v0.y, v0.z] ++ "," ++ qVec [v1.x, v1.y, v1.z] ++ "," ++ qVec [v2.x, v2.y, v2.z] ++ "]"
   | _, _ => "bad-op"
 
 def matOf (n : Nat) (xs : List Int) : Nat → Nat → Int := fun i j => xs.getD (i * n + j) 0
@@ -180,6 +254,12 @@ def handle (line : String) : String :=
   | "handnsf" :: t :: ns :: rest =>
     match isType t, ns.toNat?, rest.mapM String.toInt? with
     | true, some n, some xs => if n ≤ 5 then handnsf n xs else "bad-op"
+    | _, _, _ => "bad-op"
+  | "sym" :: "d" :: ns :: "cfq" :: ks :: rest =>
+    match ns.toNat?, ks.toInt?, rest.mapM parseHexFloat? with
+    | some n, some k, some xs =>
+      if 1 ≤ n && n ≤ 3 && xs.length == n * (n + 1) / 2 && rest.all isHexFloat && k.natAbs ≤ 1000 then symq n k xs
+      else "bad-op"
     | _, _, _ => "bad-op"
   | "sym" :: t :: ns :: route :: ks :: rest =>
     match isType t, ns.toNat?, ks.toInt? with
